@@ -3,6 +3,10 @@
 import json, os
 
 CLAIMED = {
+ "C01": ("constant folding of the KMS envelope serializer's and parser's size guards at boundary DEK lengths and comparison of the verdicts; constant census of IV/tag sizes; integer-width rule for the associated-data bit length",
+         "C01 as stated (Decrypt(Encrypt(p)) = p and byte-level interoperability with independent implementations of the standard algorithms) quantifies over cipher arithmetic and is NOT decided by this check. Decided are three structural necessary conditions only: the KMS envelope serializer and parser accept exactly the same encrypted-DEK lengths (0, 1, 2, 4095, 4096, 4097, 2^20 folded on both sides) with a 4-byte big-endian length field, so Decrypt never refuses an envelope Encrypt can produce on account of its DEK length; the IV/nonce/tag size constants of AES-GCM, AES-GCM-SIV, XAES-256-GCM, AES-CTR equal the standard values; the associated-data bit length of encrypt-then-MAC is widened to 64 bits before it is multiplied and never narrowed. The remaining code-shape clauses of C01 are decided under C02 (framing and tag checks of Decrypt), C19 (no writes into caller buffers) and C20 (fresh nonces).",
+         "Trusted: go/ssa; constant propagation over the two envelope functions. Everything value-level (the ciphers themselves, round-trip equality for all inputs) is outside the claim.",
+         "DESIGN.md §4 C01, §5"),
  # id: (technique, level text, level note, design_ref)
  "C19": ("whole-program memory-effect / alias summaries over SSA (write-set, retention, result aliasing) on every exported API function",
          "Structural decision of the three clauses of C19 (no write into byte-slice/proto parameters incl. append into spare capacity; no retention of parameter memory in receiver, globals or returned objects; no byte-slice/proto result aliasing receiver, globals or parameters) on all ~900 obligations of the exported API, by a summary-based points-to analysis of the type-checked program. A violating construct is named (function + instruction). This is the clause of C19 visible in code shape, and it is the whole of C19 modulo the stdlib contract table.",
@@ -83,7 +87,6 @@ CLAIMED = {
 }
 
 NOT_APPLICABLE = {
- "C01": "value-level equality with independent AES-GCM/CTR-HMAC/ChaCha20-Poly1305/GCM-SIV/XAES implementations and round-trip equality quantify over cipher arithmetic; no static abstraction in reach decides them (code-shape clauses are decided under C02/C19/C20).",
 }
 
 PENDING = "check under construction in this round; not claimed until it exists"
